@@ -6,6 +6,7 @@ CONSTANTS
   NT = 5
   Observe = TRUE
   ObserveFrom = 1
+  TrackDist = TRUE
   CacheChecksCount = TRUE
 INVARIANT CacheFresh
 INVARIANT GraphAgrees
